@@ -477,8 +477,9 @@ def getter(name):
 def r14dk(rep, F):
     rep.rule('R14d', 'integrators (DubinsStateSpace::interpolate(from, path, t, state, radius), ReedsSheppStateSpace::interpolate(from, '
                      'path, t, state)): the switch has a case for every segment type that occurs in the word table; in every loop the '
-                     'segment length and the segment type are read at the same index (linear normal form); Dubins\' reverse loop '
-                     'visits index 2 - i and each of its cases is the forward case with v -> -v')
+                     'segment length and the segment type are read at the same index (linear normal form); the loop drives every segment of the '
+                     'word in order (the index sequence is evaluated from the loop header: 0, 1, 2 forwards, 2, 1, 0 on Dubins\' reverse '
+                     'traversal, 0..4 for Reeds-Shepp); each reverse case is the forward case with v -> -v')
     rep.rule('R14k', 'vehicle model: for each case, with (x\', y\', yaw\') the pose written and (X0, Y0, phi) the pose read: '
                      'd x\'/dv == s*cos(yaw\'), d y\'/dv == s*sin(yaw\'), d yaw\'/dv == s*kappa with kappa = +1 LEFT, -1 RIGHT, 0 STRAIGHT '
                      '(s = -1 on Dubins\' reverse traversal, +1 otherwise), and x\' = X0, y\' = Y0, yaw\' = phi at v = 0; after the loop '
@@ -511,6 +512,41 @@ def r14dk(rep, F):
             rep.add('R14d', f.name, 'loop%d/index-agreement' % li, ok, f.where(sw),
                     'length_ and type_ both at %s' % lin.show(tidx) if ok else
                     'segment length read at %s but segment type at %s' % ([lin.show(x) for x in lidx], lin.show(tidx) if tidx else '?'))
+            # segment coverage: the loop drives every segment of the word, first to last (last to first on Dubins' reverse traversal)
+            nseg = 3 if rec == 'DubinsStateSpace' else 5
+            from engine.shape import for_loop
+            idx_, start_, _c, stride_ = for_loop(f, loop)
+            seq = None
+            if idx_ is not None and start_ is not None and set(start_) <= {1} and stride_ in (1, -1) and loop.get('cond') and tidx is not None:
+                bound = None
+                stack = [loop['cond']]
+                while stack:
+                    e = f.strip(stack.pop())
+                    if e is None:
+                        continue
+                    if e['k'] == 'BinaryOperator' and e.get('op') == '&&':
+                        stack.extend(e['ch'])
+                    elif e['k'] == 'BinaryOperator' and e.get('op') in ('<', '<=', '>', '>=', '!='):
+                        l_, r_ = lin.lin(f, e['ch'][0]), lin.lin(f, e['ch'][1])
+                        if l_ == {idx_: 1} and r_ is not None and set(r_) <= {1}:
+                            bound = (e['op'], r_.get(1, 0))
+                if bound is not None:
+                    seq, i_ = [], start_.get(1, 0)
+                    test = {'<': lambda a, b: a < b, '<=': lambda a, b: a <= b, '>': lambda a, b: a > b, '>=': lambda a, b: a >= b,
+                            '!=': lambda a, b: a != b}[bound[0]]
+                    while test(i_, bound[1]) and len(seq) < 12 and i_ >= 0:     # unsigned index: i >= 0 always holds
+                        seq.append(sum(v * (i_ if k == idx_ else 1) for k, v in tidx.items() if k in (idx_, 1)))
+                        i_ += stride_
+                    if any(k not in (idx_, 1) for k in tidx):
+                        seq = None
+            if seq is None:
+                raise AnalysisBroken('R14d: iteration range of integration loop %d of %s not recognised' % (li, f.name))
+            want_seq = list(range(nseg)) if not (rec == 'DubinsStateSpace' and li == 1) else list(range(nseg - 1, -1, -1))
+            nd += 1
+            rep.add('R14d', f.name, 'loop%d/segment-coverage' % li, seq == want_seq, f.where(loop),
+                    'drives segments %s in this order' % seq if seq == want_seq else
+                    'the loop drives segments %s, the word has segments %s in this traversal: the curve stops short of the target and jumps '
+                    'there at t = 1' % (seq, want_seq))
             # vehicle model
             sgn = -1 if (rec == 'DubinsStateSpace' and li == 1) else 1
             for name, (x, y, yaw) in sorted(cases.items(), key=lambda kv: str(kv[0])):
